@@ -65,7 +65,7 @@ func fatal(err error) bool {
 		return true
 	}
 	switch err.(type) {
-	case *Unsupported, *Scope:
+	case *Unsupported, *Scope, *NativePanic:
 		return true
 	}
 	return false
@@ -368,6 +368,14 @@ func (in *Interp) native(name string, input any, args []any, k func(v any) error
 	if n > MaxValueNodes {
 		return &Unsupported{"resource: value too large"}
 	}
+	if name == "jn" || name == "yn" {
+		// Bessel functions of order n take time proportional to n
+		for _, a := range args {
+			if num, ok := toFloatAny(a); ok && (math.Abs(num) >= 20000 || math.IsInf(num, 0)) {
+				return &Unsupported{"resource: mid-band number"}
+			}
+		}
+	}
 	if name == "setpath" || name == "_multiply" || name == "implode" || name == "delpaths" || name == "getpath" {
 		if hasMidBand(input, 3) {
 			return &Unsupported{"resource: mid-band number"}
@@ -383,7 +391,10 @@ func (in *Interp) native(name string, input any, args []any, k func(v any) error
 		if err := in.tick(); err != nil {
 			return err
 		}
-		v, ok := it.Next()
+		v, ok, pan := safeNext(it)
+		if pan != "" {
+			return &NativePanic{Name: name, What: pan}
+		}
 		if !ok {
 			return nil
 		}
@@ -461,6 +472,22 @@ func hasMidBand(v any, depth int) bool {
 	return false
 }
 
+func toFloatAny(v any) (float64, bool) {
+	switch v := v.(type) {
+	case int:
+		return float64(v), true
+	case float64:
+		return v, true
+	case json.Number:
+		f, _ := v.Float64()
+		return f, true
+	case *big.Int:
+		f, _ := new(big.Float).SetInt(v).Float64()
+		return f, true
+	}
+	return 0, false
+}
+
 func size(v any) int {
 	switch v := v.(type) {
 	case []any:
@@ -471,6 +498,34 @@ func size(v any) int {
 		return len(v) / 8
 	}
 	return 0
+}
+
+// NativePanic: a gojq native panicked when the model applied it; this is a
+// crash of the code under test, reported by every check as a violation.
+type NativePanic struct{ Name, What string }
+
+func (n *NativePanic) Error() string { return "gojq native " + n.Name + " panicked: " + n.What }
+
+// IsNativePanic reports whether err is a native panic.
+func IsNativePanic(err error) bool {
+	for {
+		if m, ok := err.(*markErr); ok {
+			err = m.err
+			continue
+		}
+		_, ok := err.(*NativePanic)
+		return ok
+	}
+}
+
+func safeNext(it gojq.Iter) (v any, ok bool, pan string) {
+	defer func() {
+		if r := recover(); r != nil {
+			pan = fmt.Sprint(r)
+		}
+	}()
+	v, ok = it.Next()
+	return v, ok, ""
 }
 
 func (in *Interp) native1(name string, input any, args ...any) (any, error) {
